@@ -10,11 +10,18 @@ from fractions import Fraction
 
 import networkx as nx
 
+import gcmpy.message_passing.message_passing as _mp_module
+import gcmpy.message_passing.equations.automated_equation as _ae_module
 from gcmpy.message_passing.message_passing import MessagePassing
+
+from .. import setseam
 
 from ..engine import describe_exc
 from ..models.percolation import expectation
 from ..operands import Exact, OpCounter
+
+setseam.install(_mp_module)
+setseam.install(_ae_module)
 
 ID = "C17"
 RUNS = {"quick": 256, "thorough": 12000, "thorough_s": 400}
@@ -196,7 +203,8 @@ def generate(prng, tier, index):
         iters = 0               # no sweep at all: the value is 1 - average of 0.5^(motifs at the vertex)
     sc = {"variant": variant, "net": net, "iterations": iters, "queries": qs,
           "mono_grid": prng.random() < 0.35 and (tier == "thorough" or iters <= 8),
-          "cover_type": prng.choice(("motif cover", "MPCC", ""))}
+          "cover_type": prng.choice(("motif cover", "MPCC", "")),
+          "set_order": prng.choice(("natural", "natural", "reversed", "rotated", "shuffled"))}
     if variant == "faults":
         sc["fault"] = {"query": prng.randrange(nq), "at": prng.randrange(0, 400)}
     return sc
@@ -305,6 +313,15 @@ class Reference:
 
 
 def execute(sc, ctx):
+    mode = sc.get("set_order", "natural")
+    before_it = setseam.ITERATIONS
+    with setseam.ordering(mode, ctx.source("setorder", None)):
+        _execute(sc, ctx)
+    if mode != "natural" and setseam.ITERATIONS > before_it:
+        ctx.fault("set_iteration_order")
+
+
+def _execute(sc, ctx):
     P = "C17"
     net = sc["net"]
     G = build_graph(net)
